@@ -192,6 +192,9 @@ def run(ctx):
                   bad_msg=f"event-id format {var} is encoded with alphabet {alpha!r}; the specification says "
                           f"{'standard' if want == STD else 'URL-safe'} base64")
     ctx.floor("event id format variants", len(efv["variants"]), 3)
+    # the hash an event carries after hash_and_sign_event is its content hash (computed, then stored unconditionally, before the copy that is signed)
+    from . import C03 as _C03
+    _C03.hash_and_sign_rule(ctx, w, "C05.stored-hash")
     # C05 relies on redaction being the specification's and idempotent (the signed / reference-hashed form is the redacted event, and
     # verification redacts again): the redaction rules of C04 are part of this check
     from . import C04 as _C04
